@@ -93,6 +93,10 @@ pub enum WKind {
     Huge,
     /// uniform 1e10
     Giant,
+    /// a 0/1 selection mask: ones with an exact zero at pos and at the last sample (W*W == W)
+    Mask(usize),
+    /// alternating +1 / -1 (W*W == I)
+    Signs,
     /// uniform 1e20: finite in both scalar widths, its square is not in f32
     Astro,
     /// uniform 1e-18 (every singular value of the weighted basis matrix lies below machine epsilon)
@@ -128,6 +132,8 @@ impl WKind {
             WKind::Giant => Some(vec![1e10; n]),
             WKind::Atto => Some(vec![1e-18; n]),
             WKind::Astro => Some(vec![1e20; n]),
+            WKind::Mask(p) => Some((0..n).map(|i| if i == *p % n || i == n - 1 { 0.0 } else { 1.0 }).collect()),
+            WKind::Signs => Some((0..n).map(|i| if i % 2 == 0 { 1.0 } else { -1.0 }).collect()),
             WKind::Spread => Some((0..n).map(|i| 10f64.powf(-3.0 + 6.0 * (((i * 7) % n) as f64) / ((n.max(2) - 1) as f64))).collect()),
             WKind::ZeroAt(p) => Some((0..n).map(|i| if i == *p % n { 0.0 } else { ramp(i) }).collect()),
             WKind::NegAt(p) => Some((0..n).map(|i| if i == *p % n { -ramp(i) } else { ramp(i) }).collect()),
@@ -147,19 +153,20 @@ impl WKind {
             WKind::ZeroAt(p) => json!({"ZeroAt": p}),
             WKind::NegAt(p) => json!({"NegAt": p}),
             WKind::KeepOnly(p) => json!({"KeepOnly": p}),
+            WKind::Mask(p) => json!({"Mask": p}),
             WKind::NegRampZeroAt(p) => json!({"NegRampZeroAt": p}),
             o => json!(format!("{:?}", o)),
         }
     }
     pub fn from_json(v: &serde_json::Value) -> WKind {
-        for (k, f) in [("ZeroAt", WKind::ZeroAt as fn(usize) -> WKind), ("NegAt", WKind::NegAt), ("KeepOnly", WKind::KeepOnly), ("NegRampZeroAt", WKind::NegRampZeroAt)] {
+        for (k, f) in [("ZeroAt", WKind::ZeroAt as fn(usize) -> WKind), ("NegAt", WKind::NegAt), ("KeepOnly", WKind::KeepOnly), ("NegRampZeroAt", WKind::NegRampZeroAt), ("Mask", WKind::Mask)] {
             if let Some(p) = v.get(k) {
                 return f(p.as_u64().unwrap() as usize);
             }
         }
         let s = v.as_str().expect("weight kind");
         // also the Debug form "ZeroAt(2)"
-        for (k, f) in [("ZeroAt(", WKind::ZeroAt as fn(usize) -> WKind), ("NegAt(", WKind::NegAt), ("KeepOnly(", WKind::KeepOnly), ("NegRampZeroAt(", WKind::NegRampZeroAt)] {
+        for (k, f) in [("ZeroAt(", WKind::ZeroAt as fn(usize) -> WKind), ("NegAt(", WKind::NegAt), ("KeepOnly(", WKind::KeepOnly), ("NegRampZeroAt(", WKind::NegRampZeroAt), ("Mask(", WKind::Mask)] {
             if let Some(r) = s.strip_prefix(k) {
                 return f(r.trim_end_matches(')').parse().unwrap());
             }
@@ -176,6 +183,7 @@ impl WKind {
             "Giant" => WKind::Giant,
             "Atto" => WKind::Atto,
             "Astro" => WKind::Astro,
+            "Signs" => WKind::Signs,
             "NegRamp" => WKind::NegRamp,
             "Spread" => WKind::Spread,
             o => panic!("wkind {}", o),
